@@ -58,7 +58,77 @@ func DomCondsBlock(b *ssa.BasicBlock) []Cond {
 			}
 		}
 	}
-	return expandConds(out)
+	out = expandConds(out)
+	return append(out, contextConds(fn, 0)...)
+}
+
+// ---- calling context ---------------------------------------------------------------------------------------------
+// A helper with exactly one static call site (and whose address is never taken), and a function literal, run only in
+// the context in which they are called / created: the branch conditions that hold there are facts about immutable SSA
+// values and therefore also hold inside. This makes guard rules independent of whether the guarded code sits in the
+// guarding function or in a helper extracted from it.
+var (
+	ctxSites   map[*ssa.Function][]ssa.Instruction
+	ctxTaken   map[*ssa.Function]bool
+	ctxMemo    = map[*ssa.Function][]Cond{}
+	ctxVisited = map[*ssa.Function]bool{}
+)
+
+// BuildContextIndex records, for the given functions, their static call sites and whether they are used as values.
+func BuildContextIndex(fns []*ssa.Function) {
+	ctxSites = map[*ssa.Function][]ssa.Instruction{}
+	ctxTaken = map[*ssa.Function]bool{}
+	ctxMemo = map[*ssa.Function][]Cond{}
+	for _, fn := range fns {
+		for _, b := range fn.Blocks {
+			for _, in := range b.Instrs {
+				var callee *ssa.Function
+				if ci, ok := in.(ssa.CallInstruction); ok {
+					callee = ci.Common().StaticCallee()
+					if callee != nil {
+						if _, isMC := ci.Common().Value.(*ssa.MakeClosure); !isMC {
+							ctxSites[callee] = append(ctxSites[callee], in)
+						}
+					}
+				}
+				if mc, ok := in.(*ssa.MakeClosure); ok {
+					if f, ok := mc.Fn.(*ssa.Function); ok {
+						ctxSites[f] = append(ctxSites[f], in)
+					}
+				}
+				for _, op := range in.Operands(nil) {
+					if op == nil || *op == nil {
+						continue
+					}
+					if f, ok := (*op).(*ssa.Function); ok && f != callee {
+						ctxTaken[f] = true
+					}
+				}
+			}
+		}
+	}
+}
+
+func contextConds(fn *ssa.Function, depth int) []Cond {
+	if ctxSites == nil || depth > 3 {
+		return nil
+	}
+	if m, ok := ctxMemo[fn]; ok {
+		return m
+	}
+	if ctxVisited[fn] {
+		return nil
+	}
+	sites := ctxSites[fn]
+	if len(sites) != 1 || ctxTaken[fn] || sites[0].Parent() == fn {
+		ctxMemo[fn] = nil
+		return nil
+	}
+	ctxVisited[fn] = true
+	out := DomCondsBlock(sites[0].Block())
+	ctxVisited[fn] = false
+	ctxMemo[fn] = out
+	return out
 }
 
 // DomConds returns the conditions holding at instr.
